@@ -354,7 +354,7 @@ func VerifyFunc(P *Program, fn *ssa.Function, c *Contract, cf *ContractFile, ins
 	}
 	// stale site clauses
 	for _, sc := range c.Sites {
-		if (sc.Kind == "assert" || sc.Kind == "ghost") && e.siteHit[sc.Site] == 0 {
+		if (sc.Kind == "assert" || sc.Kind == "ghost" || sc.Kind == "canary") && e.siteHit[sc.Site] == 0 {
 			e.bindError(name+"."+sc.Kind+"@"+sc.Site, fmt.Errorf("site not found in the function body"))
 		}
 	}
